@@ -11,7 +11,10 @@ exactly-once and order.  The same is done for eager `generate_blocks` and for la
 `ensemble_blocks().compute()`; the two block grids must agree.  Axis metadata of the blocks are
 reassembled per axis (ordinal values concatenated; linear axes either shifted so that the coordinates
 concatenate to the original ones, or carried unchanged, which is abTEM's own concatenation rule for
-non-ordinal axes) and compared with the original axis.
+non-ordinal axes) and compared with the original axis.  Every dataclass field that the axis class declares
+(not only label/units/values: direction, tex labels, _ensemble_mean, _main, _squeeze, _concatenate, _default_type,
+endpoint, fftshift, sampling) and the derived `tilt` vectors must equal the original's; only `values` (ordinal) and
+`offset` (linear) may be the block's share.
 """
 import itertools
 
@@ -26,10 +29,13 @@ RULE = ("ensemble kinds GridScan / LineScan (endpoint on/off) / CustomScan / CTF
         "AtomsEnsemble (list, ndarray, dask trajectory) / Potential and MultisliceTransform over frozen phonons (with and "
         "without exit planes) / array objects Waves, Images, DiffractionPatterns, Real- and ReciprocalSpaceLineProfiles, "
         "PolarMeasurements, PotentialArray, SMatrixArray with 0-3 ensemble axes of mixed metadata types, eager or lazy with "
-        "their own dask chunks; chunkings: random compositions per axis, uniform int chunk sizes (below, equal, above the axis), "
+        "their own dask chunks, axis classes incl. AxisAlignedTiltAxis (direction x/y), Real/ReciprocalSpaceAxis, WaveVectorAxis with "
+        "randomised non-default values in every dataclass field (units, labels, tex labels, _ensemble_mean, _main, _squeeze, "
+        "_concatenate, endpoint, fftshift, direction); PlaneWave / Probe / BeamTilt2D / BeamTilt with tilt distributions along y, x "
+        "or both, partitioned as owners and as the waves they build; chunkings: random compositions per axis, uniform int chunk sizes (below, equal, above the axis), "
         "-1, mixes, a bare int element limit; non-trivial = some axis split into >=2 blocks; distinct = distinct case signature")
 CLAUSES = ["block-grid", "eager-slices", "members-exactly-once:eager", "members-exactly-once:lazy", "members-order:eager",
-           "members-order:lazy", "axes-metadata:eager", "axes-metadata:lazy", "lazy-equals-eager", "block-type"]
+           "members-order:lazy", "axes-metadata:eager", "axes-metadata:lazy", "lazy-equals-eager", "block-type", "owner-axes"]
 QUICK = dict(n=420, time=40)
 THOROUGH = dict(n=128000, time=480, shards=16)
 
@@ -79,12 +85,16 @@ def _dist_len(d):
 
 ARRAY_TYPES = ["Waves", "Images", "DiffractionPatterns", "RealSpaceLineProfiles", "ReciprocalSpaceLineProfiles",
                "PolarMeasurements", "PotentialArray", "SMatrixArray"]
-AXIS_TYPES = ["ordinal", "parameter", "thickness", "positions", "scan", "frozen", "unknown", "tilt"]
+AXIS_TYPES = ["ordinal", "parameter", "thickness", "positions", "scan", "frozen", "unknown", "tilt", "tilt_aligned",
+              "tilt_aligned", "nonlinear", "wavevector", "realspace", "reciprocal", "sample", "prism"]
 
 
 def gen(rng, tier):
-    kind = str(rng.choice(["grid", "grid", "line", "custom", "dist", "dist", "fp", "ae", "array", "array", "array", "pot", "mt"]))
+    kind = str(rng.choice(["grid", "grid", "line", "custom", "dist", "dist", "fp", "ae", "array", "array", "array", "pot", "mt",
+                           "tilt", "tilt"]))
     c = {"kind": kind}
+    if kind == "tilt":
+        return gen_tilt(rng)
     if kind == "grid":
         g = [int(rng.integers(1, 10)), int(rng.integers(1, 10))]
         ep = rng.random()
@@ -148,7 +158,11 @@ def gen(rng, tier):
         t = str(rng.choice(ARRAY_TYPES))
         nd = int(rng.choice([0, 1, 1, 2, 2, 3]))
         shape = [int(rng.integers(1, 6)) for _ in range(nd)]
-        axes = [str(rng.choice(AXIS_TYPES)) for _ in range(nd)]
+        axes = []
+        for _ in range(nd):
+            ak = str(rng.choice(AXIS_TYPES))
+            # half of the axes carry non-default values in the fields their class declares
+            axes.append({"kind": ak, "opts": rand_axis_opts(rng, ak)} if rng.random() < 0.6 or ak == "tilt_aligned" else ak)
         c.update(type=t, shape=shape, axes=axes, lazy=bool(rng.random() < 0.5),
                  own_chunks=gen_chunks(rng, shape), base=[int(rng.integers(2, 6)), int(rng.integers(2, 6))])
         if isinstance(c["own_chunks"], int):
@@ -158,6 +172,30 @@ def gen(rng, tier):
         if kind == "mt" and c.get("exit_planes") is not None and isinstance(c["chunks"], int):
             c["chunks"] = [c["chunks"]]
     c["none_chunks"] = bool(rng.random() < 0.15)
+    return c
+
+
+def gen_tilt(rng):
+    """Objects that own tilt axes: PlaneWave / Probe with tilt along y, x or both, BeamTilt2D, BeamTilt (N x 2 values);
+    partitioned as builders/transforms (`stage` owner) or as the waves they build (`stage` waves, eager or lazy)."""
+    owner = str(rng.choice(["PlaneWave", "PlaneWave", "Probe", "BeamTilt2D", "BeamTilt"]))
+    c = {"kind": "tilt", "owner": owner, "chunk_seed": int(rng.integers(0, 2 ** 31)), "none_chunks": False,
+         "ensemble_mean": bool(rng.random() < 0.3)}
+    if owner == "BeamTilt":
+        n = int(rng.integers(1, 8))
+        c["values"] = np.round(rng.uniform(-20, 20, size=(n, 2)) + np.arange(n)[:, None] * 50.0, 3).tolist()
+        c["weights"] = None if rng.random() < 0.4 else np.round(rng.uniform(0.05, 1, size=n), 4).tolist()
+    else:
+        which = str(rng.choice(["y", "y", "x", "xy"]))
+        c["tx"] = _dist(rng) if "x" in which else float(rng.choice([0.0, float(rng.uniform(-5, 5))]))
+        c["ty"] = _dist(rng) if "y" in which else float(rng.choice([0.0, float(rng.uniform(-5, 5))]))
+        for k in ("tx", "ty"):
+            if isinstance(c[k], dict) and c[k]["d"] == "gaussian":
+                c[k] = {"d": "uniform", "low": -c[k]["sigma"], "high": c[k]["sigma"] + 1.0, "n": c[k]["n"]}
+    if owner == "Probe" and rng.random() < 0.5:
+        c["defocus"] = {"d": "uniform", "low": 0.0, "high": 40.0, "n": int(rng.integers(1, 4))}
+    c["stage"] = "owner" if owner in ("BeamTilt2D", "BeamTilt") else str(rng.choice(["owner", "waves", "waves"]))
+    c["lazy"] = bool(rng.random() < 0.5)
     return c
 
 
@@ -183,6 +221,24 @@ def fixed_cases(tier):
          "chunks": [[1, 3], -1], "none_chunks": False},
         {"kind": "array", "type": "Waves", "shape": [2, 3], "axes": ["ordinal", "scan"], "lazy": False,
          "own_chunks": [-1, -1], "base": [4, 4], "chunks": [[1, 1], [1, 2]], "none_chunks": True},
+        # axis classes with fields of their own, set to non-default values (tilt direction y, _main, endpoint, fftshift ...)
+        {"kind": "array", "type": "Waves", "shape": [5, 3],
+         "axes": [{"kind": "tilt_aligned", "opts": {"direction": "y", "_ensemble_mean": True, "tex_label": "$t_y$"}},
+                  {"kind": "scan", "opts": {"_main": False, "endpoint": True, "units": "nm", "_squeeze": True}}],
+         "lazy": False, "own_chunks": [-1, -1], "base": [4, 4], "chunks": [[2, 3], [1, 2]], "none_chunks": False},
+        {"kind": "array", "type": "DiffractionPatterns", "shape": [4, 2, 3],
+         "axes": [{"kind": "tilt_aligned", "opts": {"direction": "y"}},
+                  {"kind": "reciprocal", "opts": {"fftshift": False, "_concatenate": False}},
+                  {"kind": "parameter", "opts": {"units": "deg", "_default_type": "overlay", "label": "phi12"}}],
+         "lazy": True, "own_chunks": [[1, 3], -1, -1], "base": [4, 4], "chunks": [[1, 1, 2], -1, 2], "none_chunks": False},
+        {"kind": "tilt", "owner": "PlaneWave", "tx": 0.0,
+         "ty": {"d": "values", "values": [-12.0, -4.0, 3.0, 9.0, 20.0], "weights": [0.1, 0.2, 0.3, 0.2, 0.2]},
+         "stage": "waves", "lazy": False, "chunk_seed": 3, "none_chunks": False, "ensemble_mean": False},
+        {"kind": "tilt", "owner": "Probe", "tx": {"d": "uniform", "low": -1.0, "high": 1.0, "n": 3},
+         "ty": {"d": "uniform", "low": 2.0, "high": 6.0, "n": 4}, "defocus": {"d": "uniform", "low": 0.0, "high": 40.0, "n": 2},
+         "stage": "waves", "lazy": True, "chunk_seed": 4, "none_chunks": False, "ensemble_mean": True},
+        {"kind": "tilt", "owner": "PlaneWave", "tx": 1.5, "ty": {"d": "uniform", "low": 2.0, "high": 6.0, "n": 4},
+         "stage": "owner", "lazy": False, "chunk_seed": 5, "none_chunks": False, "ensemble_mean": False},
     ]
 
 
@@ -211,17 +267,32 @@ def call_spec(spec):
 
 # --------------------------------------------------------------------------- axis metadata descriptors
 def describe_axis(a, n):
+    """All dataclass fields of the axis (whatever its class declares), its class name, and the derived quantities
+    that consumers read (`tilt` of tilt axes, `coordinates` of linear axes)."""
+    import dataclasses
     from abtem.core.axes import LinearAxis, OrdinalAxis
-    d = {"type": type(a).__name__, "label": a.label, "units": a.units, "ensemble_mean": bool(a._ensemble_mean)}
+    fields = {f.name: G.norm(getattr(a, f.name)) for f in dataclasses.fields(a)}
+    d = {"type": type(a).__name__, "label": a.label, "units": a.units, "ensemble_mean": bool(a._ensemble_mean),
+         "fields": fields}
     if isinstance(a, OrdinalAxis):
         d["values"] = G.norm(list(a.values))
+        fields.pop("values", None)
+        if hasattr(a, "tilt"):
+            d["tilt"] = G.norm([list(t) for t in a.tilt])
     elif isinstance(a, LinearAxis):
         d["offset"] = float(a.offset)
         d["sampling"] = float(a.sampling)
         d["coords"] = [float(x) for x in a.coordinates(n)]
+        fields.pop("offset", None)
         if hasattr(a, "endpoint"):
             d["endpoint"] = bool(a.endpoint)
     return d
+
+
+def _field_diff(block_fields, orig_fields, tol, ignore=()):
+    keys = sorted((set(block_fields) | set(orig_fields)) - set(ignore))
+    return [k for k in keys if k not in block_fields or k not in orig_fields or
+            not G.approx_struct(block_fields[k], orig_fields[k], 1e-9, tol)]
 
 
 def judge_axes(ctx, mode, orig_axes, orig_shape, blocks, chunks, tol, linear_mode="shifted-or-carried",
@@ -253,10 +324,24 @@ def judge_axes(ctx, mode, orig_axes, orig_shape, blocks, chunks, tol, linear_mod
                    blocks=[{k: d[k] for k in ("type", "label", "units", "ensemble_mean")} for d in per_chunk][:4])
         if not same_kind:
             continue
+        # every field the axis class declares (direction, units, labels, tex labels, _ensemble_mean, _main, _squeeze,
+        # _concatenate, _default_type, endpoint, fftshift, sampling ...) must survive; only the per-member content
+        # (`values` of ordinal axes, `offset` of linear axes) is allowed to be the block's share of the original
+        ignore = ("endpoint",) if ignore_endpoint else ()
+        diffs = [(i, _field_diff(d["fields"], o["fields"], tol, ignore)) for i, d in enumerate(per_chunk)]
+        diffs = [(i, k) for i, k in diffs if k]
+        ctx.expect(not diffs, clause, reason="fields of a block axis differ from the original axis", axis=ax,
+                   axis_type=o["type"], differing=diffs[:4],
+                   original={k: o["fields"].get(k) for _, ks in diffs[:1] for k in ks},
+                   block={k: per_chunk[diffs[0][0]]["fields"].get(k) for k in diffs[0][1]} if diffs else None)
         if "values" in o:
             cat = [v for d in per_chunk for v in d["values"]]
             ctx.expect(G.approx_struct(cat, o["values"], 1e-6, tol), clause, reason="ordinal values", axis=ax, got=cat,
                        want=o["values"])
+            if "tilt" in o:
+                cat = [v for d in per_chunk for v in d.get("tilt", [])]
+                ctx.expect(G.approx_struct(cat, o["tilt"], 1e-6, tol), clause, reason="tilt vectors of the block axes",
+                           axis=ax, got=cat, want=o["tilt"])
         elif "coords" in o:
             nonempty = [d for d, c in zip(per_chunk, chunks[ax]) if c > 0]
             ok_s = all(abs(d["sampling"] - o["sampling"]) <= 1e-9 * abs(o["sampling"]) + tol * 1e-3 for d in nonempty)
@@ -450,24 +535,72 @@ class AEAdapter(Adapter):
         return {"ids": ids}
 
 
+AXIS_OPTS = {
+    "label": ["", "a", "tilt_y", "x, y"], "units": ["mrad", "Å", "deg", "1/Å", None], "tex_label": [None, "$\\alpha$"],
+    "tex_units": [None, "$\\mathrm{mrad}$"], "_default_type": ["index", "range", "overlay"], "_concatenate": [True, False],
+    "_ensemble_mean": [False, True], "_squeeze": [False, True]}
+
+
+def rand_axis_opts(rng, kind):
+    """Non-default values for the fields every axis class has, plus the class-specific ones."""
+    opts = {}
+    for key, choices in AXIS_OPTS.items():
+        if rng.random() < 0.35:
+            opts[key] = choices[int(rng.integers(0, len(choices)))]
+    if kind in ("scan", "realspace", "reciprocal"):
+        opts["sampling"] = float(rng.uniform(0.05, 2.0))
+        opts["offset"] = float(rng.uniform(-5, 5))
+    if kind in ("scan", "realspace"):
+        opts["endpoint"] = bool(rng.random() < 0.5)
+    if kind == "scan":
+        opts["_main"] = bool(rng.random() < 0.5)
+    if kind == "reciprocal":
+        opts["fftshift"] = bool(rng.random() < 0.5)
+    if kind == "tilt_aligned":
+        opts["direction"] = str(rng.choice(["y", "x", "y"]))
+    return opts
+
+
 def _axis(kind, n, k):
     from abtem.core import axes as A
+    opts = {}
+    if isinstance(kind, dict):
+        kind, opts = kind["kind"], dict(kind.get("opts", {}))
     vals = tuple(float(10 * k + i) + 0.5 for i in range(n))
     if kind == "ordinal":
-        return A.OrdinalAxis(label="o%d" % k, values=tuple("m%d_%d" % (k, i) for i in range(n)))
-    if kind == "parameter":
-        return A.ParameterAxis(label="C10", units="Å", values=vals)
-    if kind == "thickness":
-        return A.ThicknessAxis(values=vals)
-    if kind == "positions":
-        return A.PositionsAxis(values=tuple((v, -v) for v in vals))
-    if kind == "tilt":
-        return A.TiltAxis(label="tilt", values=tuple((v, 2 * v) for v in vals))
-    if kind == "scan":
-        return A.ScanAxis(label="x", sampling=0.25 + 0.1 * k, offset=1.5 + k, units="Å", endpoint=False)
-    if kind == "frozen":
-        return A.FrozenPhononsAxis(_ensemble_mean=bool(k % 2))
-    return A.UnknownAxis()
+        kw = dict(label="o%d" % k, values=tuple("m%d_%d" % (k, i) for i in range(n)))
+        cls = A.OrdinalAxis
+    elif kind == "nonlinear":
+        kw, cls = dict(label="n%d" % k, values=vals), A.NonLinearAxis
+    elif kind == "parameter":
+        kw, cls = dict(label="C10", units="Å", values=vals), A.ParameterAxis
+    elif kind == "thickness":
+        kw, cls = dict(values=vals), A.ThicknessAxis
+    elif kind == "positions":
+        kw, cls = dict(values=tuple((v, -v) for v in vals)), A.PositionsAxis
+    elif kind == "wavevector":
+        kw, cls = dict(label="q", values=tuple((v, -v) for v in vals)), A.WaveVectorAxis
+    elif kind == "tilt":
+        kw, cls = dict(label="tilt", values=tuple((v, 2 * v) for v in vals)), A.TiltAxis
+    elif kind == "tilt_aligned":
+        d = opts.get("direction", "y")
+        kw, cls = dict(label="tilt_" + d, values=vals, direction=d), A.AxisAlignedTiltAxis
+    elif kind == "scan":
+        kw, cls = dict(label="x", sampling=0.25 + 0.1 * k, offset=1.5 + k, units="Å", endpoint=False), A.ScanAxis
+    elif kind == "realspace":
+        kw, cls = dict(label="r", sampling=0.25 + 0.1 * k, offset=-1.5 + k, units="Å"), A.RealSpaceAxis
+    elif kind == "reciprocal":
+        kw, cls = dict(label="k", sampling=0.05 + 0.01 * k, offset=0.5 * k, units="1/Å"), A.ReciprocalSpaceAxis
+    elif kind == "frozen":
+        kw, cls = dict(_ensemble_mean=bool(k % 2)), A.FrozenPhononsAxis
+    elif kind == "sample":
+        kw, cls = dict(label="s"), A.SampleAxis
+    elif kind == "prism":
+        kw, cls = dict(), A.PrismPlaneWavesAxis
+    else:
+        kw, cls = dict(), A.UnknownAxis
+    kw.update(opts)
+    return cls(**kw)
 
 
 class ArrayAdapter(Adapter):
@@ -512,7 +645,68 @@ class ArrayAdapter(Adapter):
         return {"array": G.to_numpy(obj)}
 
 
-ADAPTERS = {"grid": GridAdapter, "line": LineAdapter, "custom": CustomAdapter, "dist": DistAdapter, "fp": FPAdapter,
+class TiltAdapter(Adapter):
+    """PlaneWave / Probe / BeamTilt2D / BeamTilt owning tilt axes; members = tilt vectors (and weights) per axis, or,
+    for stage 'waves', the built wave functions whose ensemble axes are the owner's tilt (and defocus) axes."""
+
+    def build(self, case):
+        import abtem
+        from abtem import distributions as D
+        from abtem.tilt import BeamTilt, BeamTilt2D
+        self.stage = case["stage"]
+
+        def dist(d):
+            if not isinstance(d, dict):
+                return d
+            out = _make_dist(d)
+            out._ensemble_mean = case["ensemble_mean"]
+            return out
+        owner = case["owner"]
+        if owner == "BeamTilt":
+            t = D.from_values(np.array(case["values"]), None if case["weights"] is None else np.array(case["weights"]),
+                              ensemble_mean=case["ensemble_mean"])
+            return BeamTilt(t)
+        tx, ty = dist(case["tx"]), dist(case["ty"])
+        if owner == "BeamTilt2D":
+            return BeamTilt2D(tx, ty)
+        if owner == "PlaneWave":
+            obj = abtem.PlaneWave(energy=100e3, extent=(6.0, 7.0), gpts=(8, 10), tilt=(tx, ty))
+        else:
+            kw = {"defocus": dist(case["defocus"])} if "defocus" in case else {}
+            obj = abtem.Probe(energy=100e3, extent=(6.0, 7.0), gpts=(8, 10), semiangle_cutoff=20.0, tilt=(tx, ty), **kw)
+        if self.stage == "waves":
+            waves = obj.build(lazy=case["lazy"])
+            want = [a for a in obj.ensemble_axes_metadata]
+            self.owner_axes = want
+            return waves
+        return obj
+
+    def tables(self, obj):
+        if self.stage == "waves":
+            return {"array": G.to_numpy(obj)}
+        shape = tuple(int(n) for n in obj.ensemble_shape)
+        tilt = obj.tilt if hasattr(obj, "aberrations") or hasattr(obj, "build") else obj
+        per_axis = []
+        if hasattr(tilt, "tilt_x"):
+            for d in (tilt.tilt_x, tilt.tilt_y):
+                if hasattr(d, "values"):
+                    per_axis.append((np.asarray(d.values, dtype=float).reshape(len(d), -1), np.asarray(d.weights, dtype=float)))
+        elif hasattr(tilt.tilt, "values"):
+            d = tilt.tilt
+            per_axis.append((np.asarray(d.values, dtype=float).reshape(len(d), -1), np.asarray(d.weights, dtype=float)))
+        if hasattr(obj, "aberrations"):
+            for nm, d in obj.aberrations._distribution_properties.items():
+                per_axis.append((np.asarray(d.values, dtype=float).reshape(len(d), -1), np.asarray(d.weights, dtype=float)))
+        out = {}
+        for k, (v, w) in enumerate(per_axis):
+            sh = [1] * len(shape)
+            sh[k] = shape[k]
+            out["values:%d" % k] = np.broadcast_to(v.reshape(sh + [v.shape[1]]), shape + (v.shape[1],)).copy()
+            out["weights:%d" % k] = np.broadcast_to(w.reshape(sh), shape).copy()
+        return out
+
+
+ADAPTERS = {"tilt": TiltAdapter, "grid": GridAdapter, "line": LineAdapter, "custom": CustomAdapter, "dist": DistAdapter, "fp": FPAdapter,
             "pot": PotAdapter, "mt": MTAdapter, "ae": AEAdapter, "array": ArrayAdapter}
 
 
@@ -576,7 +770,7 @@ def _check(ctx, case, dask):
     ens = ad.build(case)
     shape = ad.shape(ens)
     nd = len(shape)
-    if case["kind"] == "dist":
+    if case["kind"] in ("dist", "tilt"):
         rng = np.random.default_rng(case["chunk_seed"])
         spec = gen_chunks(rng, shape)
     else:
@@ -591,6 +785,12 @@ def _check(ctx, case, dask):
             return
     orig_axes = list(ens.ensemble_axes_metadata)
     arg = call_spec(spec)
+    if getattr(ad, "owner_axes", None) is not None:
+        # waves built by an object that owns tilt / parameter axes carry exactly the owner's axes (every field)
+        own = [describe_axis(a, n) for a, n in zip(ad.owner_axes, shape)]
+        got = [describe_axis(a, n) for a, n in zip(orig_axes, shape)]
+        ctx.expect(len(own) == len(got) and all(G.approx_struct(g, o, 1e-9, 1e-9) for g, o in zip(got, own)), "owner-axes",
+                   got=got, want=own)
 
     # ---- eager
     eager = {}
